@@ -82,11 +82,54 @@ def rule_of_three(ctx, chk):
             chk.hold("R16.4", which + "-trigger", "%s correction applies iff the observed count is exactly %s: %s" % (which, "0" if which == "lower" else "n", show(cond, 100)))
         else:
             chk.violation("R16.4", q, which + "-trigger", "%s   [%s]" % (show(cond, 140), bad), "true exactly when the observed rate is %s" % ("0" if which == "lower" else "1"), ctx.where(q))
+    # R16.4 (IEEE): the same triggers evaluated in double arithmetic, with the rate computed as the double quotient k/n
+    ieee_triggers(ctx, chk, q, Pv, CI, AL, N)
     # override order: upper applied last (n = 1: rate 1 must win)
     if len(layers) == 2 and set(kinds) == {"lower", "upper"}:
         chk.hold("R16.4", "both-corrections", "lower and upper corrections both present", nontrivial=False)
     else:
         chk.violation("R16.4", q, "both-corrections", sorted(kinds), "a lower and an upper correction", ctx.where(q))
+
+
+def ieee_triggers(ctx, chk, q, Pv, CI, AL, N, nmax=1500):
+    from .c03 import fcond
+    ev = ctx.ev
+    ev.raw_float = True
+    try:
+        outs = ctx.explore(lambda: ev.call(ctx.fn(q), [], {"p": Pv, "ci": CI, "alpha": AL, "n": N}), chk)
+    finally:
+        ev.raw_float = False
+    rets = returns(outs)
+    if len(rets) != 1:
+        chk.unknown("R16.4", "IEEE evaluation: %d return paths" % len(rets))
+        return
+    v = rets[0].value
+    conds = []
+    while isinstance(v, App) and v.fn == "where":
+        conds.append(v.args[0])
+        v = v.args[2]
+    if len(conds) != 2:
+        chk.unknown("R16.4", "IEEE evaluation: trigger conditions not recognised")
+        return
+    bad = {}
+    try:
+        for cond in conds:
+            which = "lower" if fcond(cond, {Pv: 0.0, N: 3, AL: 0.05}) else "upper"
+            for n in range(1, nmax + 1):
+                for k in {0, 1, n - 1, n}:
+                    if k < 0:
+                        continue
+                    got = fcond(cond, {Pv: k / n, N: n, AL: 0.05})
+                    want = (k == 0) if which == "lower" else (k == n)
+                    if got != want and which not in bad:
+                        bad[which] = "n=%d, observed count k=%d (rate %r as a double): %s trigger is %s in double arithmetic" % (n, k, k / n, which, got)
+            if which not in bad:
+                chk.hold("R16.4", which + "-trigger-ieee", "in double arithmetic the %s trigger fires iff the count is exactly %s for all n <= %d" % (which, "0" if which == "lower" else "n", nmax))
+    except CannotEvaluate as e:
+        chk.unknown("R16.4", "IEEE evaluation of the triggers: %s" % e)
+        return
+    for which, msg in bad.items():
+        chk.violation("R16.4", q, which + "-trigger-ieee", msg, "true exactly when the observed rate is %s (a rate of 1/n or (n-1)/n keeps its bootstrap interval)" % ("0" if which == "lower" else "1"), ctx.where(q))
 
 
 def aggregate(ctx, chk):
@@ -266,6 +309,85 @@ def band_functions(ctx, chk):
                     chk.violation("R16.2", q, "band:" + k, show(g, 200) if g is not None else "unset", show(w, 200), ctx.where(q))
 
 
+def callee_preconditions(ctx, chk):
+    """R16.8 argument checks of utils.bootstrap_ci accept what its callers pass: every raise path of the callee whose condition
+    only constrains `alpha` is evaluated at each call site's alpha expression (in terms of the caller's own alpha in (0,1))."""
+    from fractions import Fraction
+    from ..evalr import Frame
+    from ..numeval import evaluate, CannotEvaluate
+    from ..terms import subst
+    import ast as _ast
+    ev = ctx.ev
+    UB = "score_analysis.utils.bootstrap_ci"
+    AL = Sym("alpha", ("float", "notnone"))
+    TH_ = Sym("theta", ("param", "array", "notnone"))
+    HAT_ = Sym("theta_hat", ("param", "array", "notnone"))
+    guards = []
+    for m in ("quantile", "bc", "bca"):
+        for o in ctx.explore(lambda: ev.call(ctx.fn(UB), [TH_, HAT_, AL], {"method": Const(m)}), chk):
+            if o.kind != "raise":
+                continue
+            conds = [(c, t) for c, t in o.pc]
+            if conds and all(all((not isinstance(a, Sym)) or a == AL for a in atoms_of(c)) and any(a == AL for a in atoms_of(c)) for c, _t in conds):
+                guards.append((m, conds, o))
+    reps = [Fraction(1, 100), Fraction(1, 4), Fraction(1, 2), Fraction(3, 4), Fraction(99, 100)]
+    # the callee itself must accept every alpha in (0, 1)
+    def fires(conds, val):
+        try:
+            return all(bool(evaluate(c, {AL: val})) == t for c, t in conds)
+        except CannotEvaluate:
+            return None
+    bad = [(m, v) for m, conds, _o in guards for v in reps if fires(conds, v)]
+    if bad:
+        chk.violation("R16.8", UB, "alpha-domain", "raises for alpha = %s (method %s)" % (bad[0][1], bad[0][0]), "accepts every alpha in (0, 1)", ctx.where(UB))
+    n = 0
+    for r in sweep(ctx.db):
+        if r["callee"] != UB or r["verdict"] != "ok":
+            continue
+        call = r["node"]
+        expr = None
+        for k in call.keywords:
+            if k.arg == "alpha":
+                expr = k.value
+        if expr is None and len(call.args) >= 3:
+            expr = call.args[2]
+        if expr is None:
+            continue
+        names = {x.id for x in _ast.walk(expr) if isinstance(x, _ast.Name)}
+        fr = Frame(r["caller_fi"].module)
+        for nm in names:
+            fr.vars[nm] = AL if nm == "alpha" else Sym(nm, ("param", "notnone"))
+        try:
+            val = ev.eval(expr, fr)
+        except Exception:  # noqa: BLE001
+            continue
+        if not hasattr(val, "key") or not all((not isinstance(a, Sym)) or a == AL for a in atoms_of(val)):
+            continue
+        n += 1
+        site = "%s@%s:%d" % (r["caller"].split(".")[-1], r["relpath"], r["line"])
+        hit = None
+        for m, conds, _o in guards:
+            for v in reps:
+                try:
+                    inner = evaluate(val, {AL: v})
+                except CannotEvaluate:
+                    continue
+                if fires(conds, inner):
+                    hit = (m, v, inner)
+                    break
+            if hit:
+                break
+        if hit:
+            chk.violation("R16.8", r["caller"], "alpha-precondition:" + r["caller"].split(".")[-1],
+                          "passes alpha=%s; for the documented alpha=%s this is %s and utils.bootstrap_ci raises (%s)" % (_ast.unparse(expr), hit[1], hit[2], pc_text(_o)[:100]),
+                          "every alpha in (0, 1) of the caller is accepted by the callee", "%s:%d" % (r["relpath"], r["line"]))
+        else:
+            chk.hold("R16.8", site, "alpha=%s passes the callee's %d argument check(s) for alpha in {%s}" % (_ast.unparse(expr), len(guards), ", ".join(str(v) for v in reps)),
+                     nontrivial=bool(guards))
+    if n < 1:
+        chk.unknown("R16.8", "no call site of utils.bootstrap_ci with an alpha expression found")
+
+
 def run(ctx, chk, tier):
     chk.rule_text = ("call conformance of every resolvable internal call site; per band function: curve consistency, joint metric, unpack order, rule-of-three arguments, band roles; "
                      "rule-of-three trigger on the integer grid; envelope formula and purity; non-trivial = obligation mentions derived terms")
@@ -301,6 +423,7 @@ def run(ctx, chk, tier):
     rule_of_three(ctx, chk)
     aggregate(ctx, chk)
     band_functions(ctx, chk)
+    callee_preconditions(ctx, chk)
     from . import c15, c11
     # every built-in sampler delivers at least one scored positive and negative (the band functions set thresholds at FNR/FPR on each replicate)
     c11.sample_wellformed(ctx, chk)
